@@ -153,6 +153,26 @@ func (ec *evalCache) deletePod(p *k8s.Pod, podName string) {
 	}
 }
 
+// podUpdated is called when the object of an existing pod is replaced by a new one (same namespace and name):
+// the connection results cached for the pod's workload were computed with the replaced object - with its labels, and with
+// its container ports, by which named ports of policy rules are resolved (these are not part of the cache key) -
+// so they are removed from the cache
+func (ec *evalCache) podUpdated(oldPod *k8s.Pod, podName string) {
+	podKey := getPodOwnerKey(oldPod)
+
+	ec.Lock()
+	defer ec.Unlock()
+	if ec.cache != nil {
+		ec.deleteWorkload(podKey)
+	}
+	if pods, ok := ec.ownerToPods[podKey]; ok {
+		delete(pods, podName)
+		if len(pods) == 0 {
+			delete(ec.ownerToPods, podKey)
+		}
+	}
+}
+
 // deleteWorkload: delete cache keys containing the workload key string in a cached connection
 func (ec *evalCache) deleteWorkload(key string) {
 	cacheKeys := ec.cache.Keys()
